@@ -22,7 +22,7 @@ func run(cfg lib.Cfg) error {
 	out.Rule = "non-trivial = at least two tasks converged at least once each and some step of one task overlapped an open step of another"
 	judge := func(sc *ts.Scenario, kind string) {
 		ts.Judge(out, sc, kind, func(r *ts.Run) []string {
-			msgs := append(r.IsolationOracle(), r.InvOracle()...)
+			msgs := append(append(r.IsolationOracle(), r.InvOracle()...), r.GetLimitOracle()...)
 			if strings.HasPrefix(kind, "corpus-same-event") {
 				// growth-only family: every row sits on a log its OWN declaration accepts
 				msgs = append(r.ForeignLogOracle(), msgs...)
@@ -178,6 +178,37 @@ func run(cfg lib.Cfg) error {
 		}
 		sc.Acts = append(sc.Acts, ts.Act{Do: "drain"})
 		judge(sc, "corpus-same-event-different-addresses")
+	}
+	// corpus: two integrations on one source through ONE real caching client, same plan kind,
+	// different address filters, both at the same position; A asks for the full batch, B's
+	// range ends inside that batch (stop), so B's request has the same start and a SHORTER
+	// limit.  B must get exactly its blocks with ITS logs: blocks of A's longer cached segment
+	// carry only A's logs - B would record their number without its rows.  A first / B first,
+	// header plan and block plan, concurrency 1-2, fresh start and a recorded position.
+	for v, c := range []struct {
+		batch, conc int
+		stop        uint64
+		blockPlan   bool
+		aFirst      bool
+	}{
+		{5, 1, 3, false, true}, {5, 1, 3, true, true}, {6, 2, 5, false, true}, {6, 2, 5, true, true},
+		{5, 1, 2, false, false}, {4, 1, 3, true, true},
+	} {
+		sc := &ts.Scenario{Name: fmt.Sprintf("corpus-shorter-limit-same-start-%d", v), Seed: uint64(140 + v), Head: 10, SnapEvery: true, Real: true,
+			Gen:  ts.GenOpts{MaxTxs: 2, MaxLogs: 4, Decoys: true, EmptyProb: 0, OtherEvery: 2},
+			Srcs: []ts.SrcSpec{{Name: "main", ChainID: 1, Batch: c.batch, Conc: c.conc, URL: "http://main.invalid"}},
+			IGs: []ts.IGSpec{
+				{Name: "a-open", Shape: "log", Table: "t1", AddrFlt: true, TxVal: c.blockPlan, Sources: []ts.SrcRef{{Name: "main", Start: 1}}},
+				{Name: "b-bounded", Shape: "log", Table: "t2", AddrFlt: true, AddrOther: true, TxVal: c.blockPlan, Sources: []ts.SrcRef{{Name: "main", Start: 1, Stop: c.stop}}},
+			}}
+		a, b := 1, 2
+		if !c.aFirst {
+			a, b = 2, 1
+		}
+		for k := 0; k < 3; k++ {
+			sc.Acts = append(sc.Acts, ts.Act{Do: "step", Tid: a}, ts.Act{Do: "step", Tid: b})
+		}
+		judge(sc, "corpus-shorter-limit-same-start")
 	}
 	// corpus: a configuration whose table.columns ALREADY lists stamp columns (ig_name,
 	// src_name, ...) without block entries for them - written from the schema of an existing
